@@ -138,6 +138,14 @@ def instances(tier):
     ph = ["a", "b"]
     p1 = S(N("S", "Source", rail="VIN"), N("C", "Converter", "S", rail="3V3", phases=["a"]), N("L1", "PLoad", "C", phases=["a"]), N("L2", "ILoad", "S", phases=["a", "b"]), phases=ph)
     out.append(Instance("C08", "c08:s_rails", dict(shape=p1, warns={"L1": "vi"}), name="S/phases-all", uf=True, cover=["solved"], weight=30))
+    # the mux selection (hence the rail its row counts towards) differs between the phases; every input rail has a permanent member
+    p2 = S(N("S1", "Source", rail="BAT", phases=["a"], only=()), N("S2", "Source", rail="USB", only=()), N("M", "PMux", ["S1", "S2"], only=("rs",)),
+           N("L", "PLoad", "M", only=()), N("L0", "ILoad", "S1", only=()), N("L1", "RLoad", "S2", only=()), phases=ph)
+    out.append(Instance("C08", "c08:s_rails", dict(shape=p2, warns={"M": "vd"}), name="S/phases-mux-selection-changes", uf=True, cover=["solved"], weight=40))
+    # ... and the mux is the ONLY consumer of its input rails: each rail feeds nothing in one of the phases
+    p3 = S(N("S1", "Source", rail="BAT", phases=["a"], only=()), N("S2", "Source", rail="USB", only=()), N("M", "PMux", ["S1", "S2"], only=("rs",)),
+           N("L", "PLoad", "M", only=()), phases=ph)
+    out.append(Instance("C08", "c08:s_rails", dict(shape=p3, warns={"M": "vd"}), name="S/phases-mux-only-consumer", uf=True, cover=["solved"], weight=40))
     for p in ph:
         out.append(Instance("C08", "c08:s_rails", dict(shape=p1, warns={"L2": "tp"}, phase=p), name="S/phases@" + p, uf=True, cover=["solved"], weight=10))
     return out, META
